@@ -28,7 +28,12 @@ class NeedSplit(Exception):
 
 
 class Undefined(Exception):
-  """The real code would fail here (e.g. gather index out of range) for every input of the current case."""
+  """The real code would fail here (e.g. gather index out of range) for every input of the current case - or, when
+  `cond` is given, for the inputs of the case that satisfy `cond`."""
+
+  def __init__(self, msg, cond=None):
+    Exception.__init__(self, msg)
+    self.cond = cond
 
 
 class Ctx:
